@@ -277,8 +277,12 @@ def dilation_unitary(meta):
 
 # ----------------------------------------------------------------------------- Coq encoding
 def fq(x):
-    """float -> exact Q literal"""
-    return cq(F(float(x)))
+    """float -> exact Q literal (a non-finite value is reported by the search; here it becomes
+    a value no probability can be close to)"""
+    x = float(x)
+    if not math.isfinite(x):
+        return "(Qmake (-7) 1)"
+    return cq(F(x))
 
 
 def finite(x):
